@@ -210,6 +210,7 @@ func c01Sweeps(p *Prog, r *Report) {
 	}
 	seenArm := map[string]bool{}
 	var armGuards [][]*Cond
+	var cascade []*LoopCtx
 	for _, L := range loopsOf(x) {
 		// top-level loops only
 		top := false
@@ -238,6 +239,7 @@ func c01Sweeps(p *Prog, r *Report) {
 			continue
 		}
 		seenArm[arm] = true
+		cascade = append(cascade, L)
 		var ag []*Cond
 		for _, g := range flattenGuards(L.Entry.guards) {
 			if !g.Loop {
@@ -252,6 +254,29 @@ func c01Sweeps(p *Prog, r *Report) {
 		if !seenArm[a] {
 			r.Ob(a+":water:defined", "-", false, "no loop defines the new layer water on the "+a+" arm")
 		}
+	}
+	// an interface flux set by the cascade is not overwritten afterwards: outside the cascade loops only the
+	// surface flux (index 0) is stored and the other interfaces are adjusted additively (sink, capillary rise)
+	nOther := 0
+	for _, e := range x.Events {
+		if e.Kind != "assign" || e.Root != tQ.root || len(e.Idx) != 1 {
+			continue
+		}
+		inCascade := false
+		for _, L := range cascade {
+			if e.InLoop(L) {
+				inCascade = true
+			}
+		}
+		if inCascade {
+			continue
+		}
+		if c, ok := e.Idx[0].ConstInt(); ok && c == 0 {
+			continue
+		}
+		nOther++
+		additive := !stripVersions(e.Val.Sub(e.Old)).MentionsRoot(tQ.root)
+		r.Ob("flux:no-later-overwrite", p.Pos(e.Pos), additive, fmt.Sprintf("store to interface flux [%s] outside the cascade adds to the value the cascade left there: %v (a plain overwrite detaches the flux from the water the cascade moved)", stripVersions(e.Idx[0]), additive))
 	}
 	okArms, whyArms := coversAllPaths(armGuards, nil)
 	r.Ob("arms-cover", "-", okArms, fmt.Sprintf("the arms that define new water and fluxes cover every value of the surface flux: %v %s", okArms, whyArms))
